@@ -8,6 +8,7 @@ import (
 	"github.com/iancoleman/strcase"
 	"github.com/pentops/golib/gl"
 	"github.com/pentops/j5/gen/j5/ext/v1/ext_j5pb"
+	"github.com/pentops/j5/gen/j5/list/v1/list_j5pb"
 	"github.com/pentops/j5/gen/j5/messaging/v1/messaging_j5pb"
 	"github.com/pentops/j5/internal/bcl/errpos"
 	"github.com/pentops/j5/internal/j5s/sourcewalk"
@@ -210,6 +211,12 @@ func (ww *conversionVisitor) visitObjectNode(node *sourcewalk.ObjectNode) {
 		},
 	}
 	proto.SetExtension(message.descriptor.Options, ext_j5pb.E_Message, ext)
+
+	if node.ListRequest != nil {
+		// the list request annotation extends MessageOptions: it belongs to the request message
+		ww.file.ensureImport(j5ListAnnotationsImport)
+		proto.SetExtension(message.descriptor.Options, list_j5pb.E_ListRequest, node.ListRequest)
+	}
 
 	message.comment([]int32{}, node.Description)
 
